@@ -613,6 +613,8 @@ def rule_pair(c: Ctx) -> RuleResult:
         r.paths += min(c.cfg(f).paths_count(), 10**6)
         if f.name == "__init__":
             continue                       # constructors initialise the level; there is no entry value to preserve
+        if f in _push_parts(c):
+            continue                       # a part of push (called from it only): judged with push by LVL
         bad = [o for o in offs if o != 0]
         key = f"{f.short}|neutral"
         note = (f" (flags {sorted(flags)})" if flags else "")
@@ -715,12 +717,28 @@ def rule_pair(c: Ctx) -> RuleResult:
     return r
 
 
+def _push_parts(c: Ctx) -> set:
+    """Private methods of a state class that are called from its push methods only (directly, `self._m()`): the bookkeeping of
+    push moved into helpers.  They are part of push: LVL evaluates them in place, PAIR does not hold them to level-neutrality on
+    their own, PUSH lets them store the level."""
+    push_b, push_i, pend = _push_funcs(c)
+    pushes = {push_b, push_i, pend}
+    out: set = set()
+    for g in c.p.all_funcs():
+        if g.cls is None or not g.name.startswith("_") or g.name.startswith("__") or g in pushes:
+            continue
+        sites = c.cg.callers.get(g, [])
+        if sites and all(cs.caller in pushes and cs.caller.cls == g.cls and cs.kind == "method" for cs in sites):
+            out.add(g)
+    return out
+
+
 # ------------------------------------------------------------------------------------------------ PUSH
 def rule_push(c: Ctx) -> RuleResult:
     r = RuleResult("PUSH", "in the block and inline rule modules only the push methods add tokens to a state's stream and only they "
                            "(and skipToken's paired += 1 / -= 1) store the nesting level")
     push_b, push_i, pend = _push_funcs(c)
-    allowed = {push_b, push_i, pend}
+    allowed = {push_b, push_i, pend} | _push_parts(c)
     for f in sorted(c.cg.parse_phase(), key=lambda x: x.qual):
         if not (f.module.rel.startswith(("rules_block/", "rules_inline/")) or f.module.rel in ("parser_block.py", "parser_inline.py")):
             continue
